@@ -33,7 +33,7 @@ RULE = ('family = one store (new / from_dict / from_list with immutable_warranty
 PROBES = ['iterator_kept_open', 'slice_dataset_kept', 'two_client_threads', 'mutated_then_reread_same_path', 'mutated_then_reread_other_path',
           'original_container_mutated', 'read_by_prefetch_worker',
           'first_access_object_mutated', 'cached_access_object_mutated',
-          'copy_kept_and_read_again', 'endless_repetition_second_round', 'constructed_through_another_entry_point', 'original_container_grew_or_shrank', 'empty_container_refused', 'dataset_from_json_file']
+          'repetition_kept_and_read_again', 'copy_kept_and_read_again', 'endless_repetition_second_round', 'constructed_through_another_entry_point', 'original_container_grew_or_shrank', 'empty_container_refused', 'dataset_from_json_file']
 BUDGET = {
     'quick': {'families': 7000, 'wall_cap': 420, 'shrink_s': 12},
     'thorough': {'families': 70000, 'wall_cap': 5400, 'shrink_s': 30},
@@ -50,8 +50,8 @@ ASSUMPTIONS = ['isolation is judged by deep equality with a snapshot normalised 
                'the disk cache lives on a real temporary directory removed after each run']
 
 STORES = ['new_pickle', 'new_pickle', 'new_copy', 'new_wu', 'cache', 'eager_cache', 'diskcache',
-          'cache_tuple', 'new_tuple', 'new_json', 'eager_cache_raw']
-PATHS = ['index', 'neg', 'key', 'iter', 'items', 'slice', 'copy', 'prefetch1', 'prefetchw']
+          'cache_tuple', 'new_tuple', 'new_json', 'eager_cache_raw', 'cache_over_copy']
+PATHS = ['index', 'neg', 'key', 'iter', 'items', 'slice', 'copy', 'prefetch1', 'prefetchw', 'base']
 MUTS = ['set', 'del', 'append', 'clear', 'array', 'nested']
 
 
@@ -104,7 +104,8 @@ def gen(rng, tier, index):
         # again through the very same derived object
         for j in range(3):
             ops = []
-            opener = rng.choice([['kc_open', rng.randrange(1, 3)], ['ks_open', 0]])
+            opener = rng.choice([['kc_open', rng.randrange(1, 3)], ['ks_open', 0],
+                                 ['kc_open', 1, rng.choice(['tile', 'concat'])]])
             ops.append(opener)
             for _ in range(rng.randrange(2, 5)):
                 i = rng.randrange(n)
@@ -223,6 +224,7 @@ def run(case):
     violations, probes, fired = [], {}, {}
     tmp = None
     ds = None
+    base = None
     held = []          # (object, index, path, was_first_access)
     mutated_idx = {}   # index -> set(paths) mutated so far
     accessed = set()
@@ -270,6 +272,10 @@ def run(case):
                 raw = ldc.DictDataset(orig) if kind == 'dict' else ldc.ListDataset(orig)
                 ds = raw.cache(lazy=False)
                 raw = None
+            elif store == 'cache_over_copy':
+                # a memory cache on top of the 'copy' warranty; the base dataset stays in use
+                base = lazy_dataset.new(orig, immutable_warranty='copy')
+                ds = base.cache()
             else:
                 base = lazy_dataset.new(orig)
                 if store in ('cache', 'cache_tuple'):
@@ -358,22 +364,32 @@ def run(case):
                         held_it[1] += 1
                     continue
                 if op[0] == 'kc_open':
-                    kept_copy = ds.copy()
-                    for _ in range(op[1] - 1):
-                        kept_copy = kept_copy.copy()
+                    how_ = op[2] if len(op) > 2 else 'copy'
+                    if how_ == 'tile':
+                        kept_copy = ds.tile(2)
+                    elif how_ == 'concat':
+                        kept_copy = ds.concatenate(ds.copy())
+                    else:
+                        kept_copy = ds.copy()
+                        for _ in range(op[1] - 1):
+                            kept_copy = kept_copy.copy()
                     probes['copy_kept_and_read_again'] = 1
+                    if how_ != 'copy':
+                        probes['repetition_kept_and_read_again'] = 1
                     continue
                 if op[0] == 'kc_read':
                     if kept_copy is not None:
                         try:
+                            ln_ = len(kept_copy)       # n, or 2n for a repetition
                             if op[2] == 'index':
-                                check(op[1], kept_copy[op[1]], 'kept_copy')
+                                j_ = op[1] + (n if ln_ > n and op[1] % 2 else 0)
+                                check(j_ % n, kept_copy[j_], 'kept_copy')
                             elif op[2] == 'iter':
                                 for j, v in enumerate(kept_copy):
-                                    check(j, v, 'kept_copy')
+                                    check(j % n, v, 'kept_copy')
                             else:
-                                for j, v in zip(range(op[1], n), kept_copy[op[1]:]):
-                                    check(j, v, 'kept_copy')
+                                for j, v in zip(range(op[1], ln_), kept_copy[op[1]:]):
+                                    check(j % n, v, 'kept_copy')
                         except (OSError, _sq.OperationalError):
                             if case['store'] != 'diskcache':
                                 raise
@@ -443,6 +459,9 @@ def run(case):
                             check(j, v, path)
                     elif path == 'copy':
                         check(i, ds.copy()[i], path)
+                    elif path == 'base':
+                        # the dataset below the cache, read directly
+                        check(i, (base if base is not None else ds)[i], path)
                     else:
                         w = 1 if path == 'prefetch1' else 2
                         out, err = _prefetch_read(ds, w, seed)
